@@ -224,6 +224,30 @@ def run_ops_batch(scratch, doc, text, combos):
     return out
 
 
+def run_ops_shared_config(scratch, doc, text, combos):
+    """The same rule and input asked in several ways through ONE configuration object handed on: the first MatchConfig
+    is built by the constructor, every later one is `dataclasses.replace(previous, …)` of the one just used (a caller
+    keeping one configuration and changing what it asks).  combos: list of (ret, mode, addr_only)."""
+    import dataclasses
+    path = scratch.write(dump_yaml(doc), ".yaml")
+    inp = scratch.write(text, ".s")
+    out, cfg, asked_mode = [], None, None
+    for ret, mode, ao in combos:
+        def go():
+            nonlocal cfg, asked_mode
+            if cfg is None:
+                cfg = MatchConfig(pattern_pathstr=path, input_file=inp, input_file_type=InputFileType.assembly,
+                                  return_only_address=ao, return_mode=RET[ret], matching_mode=MODE[mode])
+            else:
+                cfg = dataclasses.replace(cfg, return_only_address=ao, return_mode=RET[ret])
+                if mode != asked_mode:          # the caller changes the search mode only when it asks for another one
+                    cfg = dataclasses.replace(cfg, matching_mode=MODE[mode])
+            asked_mode = mode
+            return copy.deepcopy(MasterOfPuppets(cfg).perform_matching())
+        out.append(guarded(go))
+    return out
+
+
 def expand_macros(macros, tree):
     return guarded(lambda: MacroExpander().resolve_all_macros(macros=macros, pattern_tree=tree))
 
